@@ -448,3 +448,40 @@ pub fn c18(arg: &str) -> (bool, bool, String) {
     }
     (false, false, format!("{arg}: trait call agrees with the direct method in {n} scenarios"))
 }
+
+/// C05, shipped stores: the documented lookup contract ("find all credentials matching the given ids and rp_id") evaluated on
+/// the stores of the library themselves.  arg: "option" | "memory"
+pub fn shipped_store(arg: &str) -> (bool, String) {
+    use passkey_authenticator::MemoryStore;
+    // two credentials made by the real registration ceremony, for two RPs
+    let seed = RefStore::new(2);
+    register(&seed, "a.example", false);
+    register(&seed, "b.example", false);
+    let (pk_a, pk_b) = { let g = seed.items.lock().unwrap(); (g[0].clone(), g[1].clone()) };
+    let d = |p: &Passkey| desc(&p.credential_id);
+    let ids_of = |r: &Result<Vec<Passkey>, StatusCode>| -> Vec<Vec<u8>> { r.as_ref().map(|v| v.iter().map(|p| p.credential_id.to_vec()).collect()).unwrap_or_default() };
+    match arg {
+        "option" => {
+            let store: Option<Passkey> = Some(pk_a.clone());
+            let r = block_on(store.find_credentials(None, "b.example"));
+            if !ids_of(&r).is_empty() { return (true, "Option<Passkey> holding a credential of a.example, lookup (no ids, rp b.example): the credential of a.example is returned".into()); }
+            let r = block_on(store.find_credentials(Some(&[d(&pk_a)]), "b.example"));
+            if !ids_of(&r).is_empty() { return (true, "Option<Passkey> holding a credential of a.example, lookup ([its id], rp b.example): the credential of a.example is returned".into()); }
+            (false, "single-slot store follows the lookup contract on the probes".into())
+        }
+        _ => {
+            let mut store = MemoryStore::new();
+            store.insert(pk_a.credential_id.to_vec(), pk_a.clone());
+            store.insert(pk_b.credential_id.to_vec(), pk_b.clone());
+            if arg != "memory-idless" {
+                let r = block_on(store.find_credentials(Some(&[d(&pk_a)]), "b.example"));
+                if !ids_of(&r).is_empty() { return (true, "MemoryStore, lookup ([id of a.example's credential], rp b.example): that credential is returned".into()); }
+            }
+            if arg != "memory-rp" {
+                let r = block_on(store.find_credentials(None, "a.example"));
+                if ids_of(&r).is_empty() { return (true, "MemoryStore holding a credential of a.example, lookup (no ids, rp a.example): nothing is found".into()); }
+            }
+            (false, "in-memory store follows the lookup contract on the probes".into())
+        }
+    }
+}
